@@ -37,6 +37,7 @@ type interpreter struct {
 	env                *Env // shared, read-only: program, harness info, intrinsic tables
 	ps                 *pathState
 	sched              *scheduler
+	race               *raceDet
 	depth              int
 	funcsSeen          map[*ssa.Function]bool
 	timeCounter        int64
@@ -268,6 +269,9 @@ func visitInstr(fr *frame, instr ssa.Instruction) continuation {
 		if addr == nil {
 			fr.i.rtPanic("invalid memory address or nil pointer dereference")
 		}
+		if fr.i.race != nil {
+			fr.i.raceAccess(fr, addr, true, instr.Pos())
+		}
 		store(mustDeref(instr.Addr.Type()), addr, fr.get(instr.Val))
 
 	case *ssa.If:
@@ -341,6 +345,9 @@ func visitInstr(fr *frame, instr ssa.Instruction) continuation {
 		fr.env[instr] = newOmap(instr.Type().Underlying().(*types.Map).Key())
 
 	case *ssa.Range:
+		if m, ok := fr.get(instr.X).(*omap); ok && m != nil && fr.i.race != nil {
+			fr.i.raceAccess(fr, m, false, instr.Pos())
+		}
 		fr.env[instr] = rangeIter(fr.i, fr.get(instr.X), instr.X.Type())
 
 	case *ssa.Next:
@@ -390,12 +397,18 @@ func visitInstr(fr *frame, instr ssa.Instruction) continuation {
 		}
 
 	case *ssa.Lookup:
+		if m, ok := fr.get(instr.X).(*omap); ok && m != nil && fr.i.race != nil {
+			fr.i.raceAccess(fr, m, false, instr.Pos())
+		}
 		fr.env[instr] = lookup(fr.i, instr, fr.get(instr.X), fr.get(instr.Index))
 
 	case *ssa.MapUpdate:
 		m := fr.get(instr.Map).(*omap)
 		if m == nil {
 			panic(targetPanic{iface{fr.i.runtimeErrorString, "assignment to entry in nil map"}})
+		}
+		if fr.i.race != nil {
+			fr.i.raceAccess(fr, m, true, instr.Pos())
 		}
 		m.insert(fr.i, fr.get(instr.Key), fr.get(instr.Value))
 
